@@ -47,7 +47,7 @@ func Verif_C10_peer_stop() {
 	if verifTier() >= 1 {
 		d = 2
 	}
-	verifNote("real peer (manager, FSMs, readers, dial goroutine) brought under the base schedule to one of 13 situations (stop racing the whole start-up with an immediately successful dial [2/3 delays], dial pending, dial completing after cancel, OpenSent/OpenConfirm/Established on either direction, both connections in OpenSent, inbound Established with outbound disabled, hold-down, Active after a TCP failure); in the Established situations optionally a goroutine issuing two WriteUpdate calls; then one more remote event is injected WITHOUT waiting (none / the message that is legal progress in that state / FIN; thorough also an unexpected message / a received Cease) and peer.stop() is called: all schedules of the stop against the in-flight processing with at most 1 (quick) / 2 (thorough) delays (sleep-set reduced); happens-before race detection on every memory access of corebgp code; deadlock = violation")
+	verifNote("real peer (manager, FSMs, readers, dial goroutine) brought under the base schedule to one of 13 situations (stop racing the whole start-up with an immediately successful dial [2/3 delays], dial pending, dial completing after cancel, OpenSent/OpenConfirm/Established on either direction, both connections in OpenSent, inbound Established with outbound disabled, hold-down, Active after a TCP failure); in the Established situations optionally a goroutine issuing two WriteUpdate calls; then one more remote event is injected WITHOUT waiting (none / the message that is legal progress in that state / FIN / a message header whose body has not arrived; thorough also an unexpected message / a received Cease) and peer.stop() is called: all schedules of the stop against the in-flight processing with at most 1 (quick) / 2 (thorough) delays (sleep-set reduced); happens-before race detection on every memory access of corebgp code; deadlock = violation")
 	sc := verifChoose("scenario", c10NumScenarios)
 	passive := sc == c10OpenSentIn || sc == c10OpenConfirmIn || sc == c10EstablishedIn
 	e := newPenv(passive)
@@ -136,13 +136,23 @@ func Verif_C10_peer_stop() {
 		case c10EstablishedOut, c10EstablishedIn, c10InEstablishedOutStopped:
 			rstate = stEstablished
 		}
-		nfl := 3
+		nfl := 4
 		if verifTier() >= 1 {
-			nfl = 5
+			nfl = 6
 		}
 		fl := verifChoose("in-flight", nfl)
 		endsSession := false
+		if fl == 3 {
+			fl = 5 // (quick menu: none / legal progress / FIN / partial message; thorough adds unexpected message / Cease)
+		} else if fl == 5 {
+			fl = 3
+		}
 		switch fl {
+		case 5: // a message whose header has arrived but whose body has not: the reader sits in the body read when the stop closes the connection
+			h := mkFrame(verifMsgUpdate, nil)
+			h[16], h[17] = 0, 19+8
+			racing.chunks = append(racing.chunks, h)
+			racing.deliver(len(racing.chunks), false)
 		case 1: // the message that is legal progress in this state: the session goes on
 			switch rstate {
 			case stOpenSent:
